@@ -1,5 +1,7 @@
 // gen.go — `harness gen`: regenerate CoreDhcp/Generated/IPCalc.lean from the Go
 // source of plugins/allocators/ipcalc.go (functions Offset and AddPrefixes).
+// This is unit `ipcalc` (the default of -unit); the decision-logic units dispatch6,
+// dispatch4, serverid6 and netmask are in gen2.go, one output file per unit.
 //
 // The translator walks the go/ast of the two functions and emits Lean text. It
 // knows ONLY the constructs these two functions use; anything else (a new
@@ -497,15 +499,24 @@ def ipLen (_ : Addr) : Int := 16
 
 func runGen(args []string) {
 	fs := flag.NewFlagSet("gen", flag.ExitOnError)
-	srcPath := fs.String("src", "/repo/plugins/allocators/ipcalc.go", "path to ipcalc.go")
-	outPath := fs.String("out", "", "path of the Lean file to write (CoreDhcp/Generated/IPCalc.lean)")
+	srcPath := fs.String("src", "", "path of the Go source file (default: the unit's file below /repo)")
+	outPath := fs.String("out", "", "path of the Lean file to write (CoreDhcp/Generated/<Unit>.lean)")
+	unit := fs.String("unit", "ipcalc", "translation unit: ipcalc | dispatch6 | dispatch4 | serverid6 | netmask")
+	lib := fs.String("lib", defaultLib, "root of the insomniacslk/dhcp source (numeric constants are read from it)")
 	fs.Parse(args)
 	die := func(a ...interface{}) {
 		fmt.Fprintln(os.Stderr, append([]interface{}{"gen:"}, a...)...)
 		os.Exit(2)
 	}
 	if *outPath == "" || fs.NArg() != 0 {
-		die("usage: gen [-src ipcalc.go] -out Generated/IPCalc.lean")
+		die("usage: gen [-unit ipcalc|dispatch6|dispatch4|serverid6|netmask] [-src file.go] -out Generated/<Unit>.lean")
+	}
+	if *unit != "ipcalc" {
+		runGen2(*unit, *srcPath, *outPath, *lib)
+		return
+	}
+	if *srcPath == "" {
+		*srcPath = "/repo/plugins/allocators/ipcalc.go"
 	}
 	g := &gen{fset: token.NewFileSet()}
 	file, err := parser.ParseFile(g.fset, *srcPath, nil, parser.SkipObjectResolution)
